@@ -374,8 +374,9 @@ Variable keqb : K -> K -> bool.
 Variable f : A -> N -> R.
 
 Notation items := (list (K * (Z * R))).
-(* version: bumped by every mutation of the OrderedDict (od_state) *)
-Record lsh := mkLS { ls_items : items; ls_ver : N; ls_now : Z; ls_calls : N }.
+(* version: bumped by every mutation of the OrderedDict (od_state); ls_log is a ghost log of the
+   invocations made so far: (arguments, clock value when f ran) *)
+Record lsh := mkLS { ls_items : items; ls_ver : N; ls_now : Z; ls_calls : N; ls_log : list (A * Z) }.
 
 Inductive lpc :=
 | LTime                                            (* current_time = time.time() *)
@@ -399,7 +400,7 @@ Definition has_key (k : K) (it : items) : bool := existsb (fun e => keqb (fst e)
 Definition set_item (k : K) (v : Z * R) (it : items) : items :=
   if has_key k it then map (fun e => if keqb (fst e) k then (fst e, v) else e) it
   else it ++ [(k, v)].
-Definition bump (sh : lsh) (it : items) : lsh := mkLS it (N.succ (ls_ver sh)) (ls_now sh) (ls_calls sh).
+Definition bump (sh : lsh) (it : items) : lsh := mkLS it (N.succ (ls_ver sh)) (ls_now sh) (ls_calls sh) (ls_log sh).
 
 Definition ltstep (max_size : nat) (valid : option Z) (sh : lsh) (t : lthread) : lsh * lthread :=
   let a := lt_arg t in
@@ -435,7 +436,7 @@ Definition ltstep (max_size : nat) (valid : option Z) (sh : lsh) (t : lthread) :
       | Some e => go (LDone (Some (snd (snd e))))
       | None => go (LDone None)
       end
-  | LCall now => (mkLS (ls_items sh) (ls_ver sh) (ls_now sh) (N.succ (ls_calls sh)),
+  | LCall now => (mkLS (ls_items sh) (ls_ver sh) (ls_now sh) (N.succ (ls_calls sh)) (ls_log sh ++ [(a, ls_now sh)]),
                   mkLT a (LStore now (f a (ls_calls sh))))
   | LStore now r => (bump sh (set_item k (now, r) (ls_items sh)), mkLT a (LLen r))
   | LLen r => if Nat.ltb max_size (length (ls_items sh)) then go (LPop r) else go (LRet r)
@@ -451,7 +452,7 @@ Definition ltstep (max_size : nat) (valid : option Z) (sh : lsh) (t : lthread) :
 Definition lcstep (max_size : nat) (valid : option Z) (st : lsh * list lthread) (e : sched)
   : lsh * list lthread :=
   match e with
-  | STick d => (mkLS (ls_items (fst st)) (ls_ver (fst st)) (ls_now (fst st) + Z.of_N d) (ls_calls (fst st)), snd st)
+  | STick d => (mkLS (ls_items (fst st)) (ls_ver (fst st)) (ls_now (fst st) + Z.of_N d) (ls_calls (fst st)) (ls_log (fst st)), snd st)
   | SStep i =>
       match nth_error (snd st) i with
       | Some t => let '(sh', t') := ltstep max_size valid (fst st) t in (sh', upd (snd st) i t')
@@ -466,12 +467,13 @@ Definition lreturned (t : lthread) : option R :=
   match lt_pc t with LDone (Some r) => Some r | _ => None end.
 End LruConc.
 
-Arguments mkLS {K R}. Arguments ls_items {K R}. Arguments ls_ver {K R}. Arguments ls_now {K R}. Arguments ls_calls {K R}.
+Arguments mkLS {A K R}. Arguments ls_items {A K R}. Arguments ls_ver {A K R}. Arguments ls_now {A K R}. Arguments ls_calls {A K R}.
+Arguments ls_log {A K R}.
 Arguments mkLT {A K R}. Arguments lt_arg {A K R}. Arguments lt_pc {A K R}.
 Arguments LTime {K R}. Arguments LDone {K R}. Arguments LKey {K R}. Arguments LIterNew {K R}.
 Arguments LIter {K R}. Arguments LDel {K R}. Arguments LCheck {K R}. Arguments LMove {K R}. Arguments LGet {K R}.
 Arguments LCall {K R}. Arguments LStore {K R}. Arguments LLen {K R}. Arguments LPop {K R}. Arguments LRet {K R}.
-Arguments bump {K R}.
+Arguments bump {A K R}.
 Arguments ltstep {A K R}. Arguments lcstep {A K R}. Arguments lcrun {A K R}. Arguments lreturned {A K R}.
 Arguments has_key {K R}. Arguments set_item {K R}.
 
